@@ -371,3 +371,5 @@ func strictUnmarshal(b []byte, v any) error {
 	d.DisallowUnknownFields()
 	return d.Decode(v)
 }
+
+func (r *Rec) FailCount() int64 { r.mu.Lock(); defer r.mu.Unlock(); return r.fails }
